@@ -372,6 +372,52 @@ func damage(f *pbfgen.File, j *Job) (data []byte, nbefore int, skip string) {
 		b.Varint(2, uint64(len(payload)))
 		b.Bytes(3, z)
 		return replace(pbfgen.FrameBlob(typ, b.B, nil)), nbefore, ""
+	case "zlib-empty":
+		// a zlib stream that inflates to nothing although raw_size announces
+		// the real payload size
+		if len(payload) == 0 {
+			return nil, 0, "empty payload"
+		}
+		var zb bytes.Buffer
+		zw := zlib.NewWriter(&zb)
+		zw.Close()
+		var b pbfgen.W
+		b.Varint(2, uint64(len(payload)))
+		b.Bytes(3, zb.Bytes())
+		return replace(pbfgen.FrameBlob(typ, b.B, nil)), nbefore, ""
+	case "blobheader-field-missing":
+		// a BlobHeader without one of its required fields. "type" and
+		// "datasize" keep the block's own blob; "datasize-after-twin" puts the
+		// damaged header in front of a copy of the previous block's blob, so that
+		// a reader which carries header fields over from the previous block would
+		// read a well-formed block.
+		var h pbfgen.W
+		body := blob
+		switch j.Arg {
+		case "type":
+			h.Varint(3, uint64(len(blob)))
+		case "datasize":
+			h.Bytes(1, []byte(typ))
+		case "datasize-after-twin", "type-after-twin":
+			if pos < 1 {
+				return nil, 0, "needs a preceding data block"
+			}
+			prev := pbfgen.EncodeBlob(f.Blocks[pos-1].Encode(), pbfgen.BlobOpt{Zlib: f.Blocks[pos-1].Zlib, RawSize: f.Blocks[pos-1].RawSizeOnRaw})
+			// the twin must have the previous frame's datasize
+			if want := enc.Blocks[pos-1].End - enc.Blocks[pos-1].Start; len(pbfgen.FrameBlob("OSMData", prev, nil)) != want {
+				return nil, 0, "previous block carries index data"
+			}
+			body = prev
+			if j.Arg == "datasize-after-twin" {
+				h.Bytes(1, []byte(typ))
+			} else {
+				h.Varint(3, uint64(len(prev)))
+			}
+		}
+		out := make([]byte, 4)
+		binary.BigEndian.PutUint32(out, uint32(len(h.B)))
+		out = append(out, h.B...)
+		return replace(append(out, body...)), nbefore, ""
 	case "blob-unknown-encoding":
 		var b pbfgen.W
 		if j.Arg == "lzma" {
@@ -380,6 +426,13 @@ func damage(f *pbfgen.File, j *Job) (data []byte, nbefore int, skip string) {
 		}
 		return replace(pbfgen.FrameBlob(typ, b.B, nil)), nbefore, ""
 	case "block-type-unknown":
+		if j.Arg == "OSMHeader" {
+			// a data block (not the first block) labelled as a header block
+			if pos < 0 || (pos == 0 && f.Header == nil) {
+				return nil, 0, "needs a block before it"
+			}
+			return replace(pbfgen.FrameBlob("OSMHeader", blob, nil)), nbefore, ""
+		}
 		return replace(pbfgen.FrameBlob("OSMFoo", blob, nil)), nbefore, ""
 	case "second-header":
 		if pos < 0 {
@@ -713,6 +766,9 @@ var damageClasses = []damageSpec{
 	{"string-index", "way.key"}, {"string-index", "way.val"}, {"string-index", "way.user"},
 	{"string-index", "rel.key"}, {"string-index", "rel.val"}, {"string-index", "rel.user"}, {"string-index", "rel.role"},
 	{"plain-nodes", ""}, {"missing-stringtable", ""},
+	{"zlib-empty", ""}, {"blobheader-field-missing", "type"}, {"blobheader-field-missing", "datasize"},
+	{"blobheader-field-missing", "datasize-after-twin"}, {"blobheader-field-missing", "type-after-twin"},
+	{"block-type-unknown", "OSMHeader"},
 }
 
 var (
